@@ -10,8 +10,11 @@ def errToJson (e : Err) : J := .obj [("rule", .str e.rule.id), ("args", J.ofStrs
 def resolverOfJson (j : J) : ResolverD :=
   (Driver.resolverOfJson? (.obj [("r", j)]) "r").getD {}
 
-def entryOfJson (j : J) : String × TypeD × Bool :=
-  (j.strD "name", Driver.typeOfJson (j.getD "type"), j.boolD "same")
+def entryOfJson (j : J) : String × Option TypeD × Bool :=
+  (j.strD "name", (match j.get? "type" with | some (.obj kvs) => some (Driver.typeOfJson (.obj kvs)) | _ => none), j.boolD "same")
+
+def dirEntryOfJson (j : J) : String × Option DirectiveD × Bool :=
+  (j.strD "name", (match j.get? "directive" with | some (.obj kvs) => some (Driver.directiveOfJson (.obj kvs)) | _ => none), j.boolD "same")
 
 def opOfJson (j : J) : Op :=
   match j.strD "op" with
@@ -21,7 +24,9 @@ def opOfJson (j : J) : Op :=
     .registerDefaultResolver (j.strD "type") (resolverOfJson (j.getD "resolver")) (j.boolD "allow_override")
   | "register_subscription" =>
     .registerSubscription (j.strD "type") (j.strD "field") (resolverOfJson (j.getD "resolver")) (j.boolD "allow_override") (j.boolD "same")
-  | "replace_types" => .replaceTypes ((j.arrD "entries").map entryOfJson)
+  | "replace_types" =>
+    .replaceTypes ((j.arrD "entries").map entryOfJson) ((j.arrD "dir_entries").map dirEntryOfJson)
+      (match j.get? "healed" with | some (.obj kvs) => some (Driver.schemaOfJson (.obj kvs)) | _ => none)
   | _ => .validate
 
 /-- outcomes, and after every step the cache flag and the verdict of a fresh validation -/
